@@ -371,5 +371,8 @@ Fixpoint trace (rib_on : bool) (c : conn) (es : list event) : list conn :=
   | [] => []
   | e :: r => let c' := ev_step rib_on c e in c' :: trace rib_on c' r
   end.
+(** the state at the end of a history *)
+Definition run (rib_on : bool) (c : conn) (es : list event) : conn := fold_left (ev_step rib_on) es c.
+
 Definition trace_sx (rib_on : bool) (es : list event) : sx :=
   SL (map sx_conn (trace rib_on new_connection es)).
